@@ -210,6 +210,14 @@ func c09sInterp(t *testing.T, c c09sCase) (v kit.Verdict) {
 				} else {
 					classes["reject-hot-only"] = true
 				}
+				if vis {
+					classes["reject-cap-from-data"] = true
+					if capLo > 1 {
+						classes["reject-cap>1"] = true
+					}
+				} else {
+					classes["reject-cap-undefined"] = true
+				}
 				if !over && !recent {
 					fail = fmt.Sprintf("rule A: %s: rejected although CPU is below the threshold and no overload was observed during the last second; %s", what, state)
 					return false
@@ -350,6 +358,17 @@ func c09sGen(rt *rapid.T) c09sCase {
 	var el int64
 	var lastOver int64 = -1
 	var reading int64
+	// optional warm-up: some passes in a completed bucket, so that the capacity is estimated from data
+	for w := rapid.IntRange(0, 2).Draw(rt, "warm"); w > 0; w-- {
+		k := rapid.IntRange(1, 8).Draw(rt, "wn")
+		lat := rapid.Int64Range(1, 30).Draw(rt, "wlat") * int64(time.Millisecond)
+		c.Ops = append(c.Ops, c09sOp{K: "arr", N: k}, c09sOp{K: "adv", D: lat, G: "warm"},
+			c09sOp{K: "done", N: k, P: true})
+		el += lat
+		toB := bd - el%bd
+		c.Ops = append(c.Ops, c09sOp{K: "adv", D: toB, G: "warm-toB"})
+		el += toB
+	}
 	for i := 0; i < n; i++ {
 		k := rapid.SampledFrom([]string{"cpu", "cpu", "arr", "arr", "arr", "done", "done", "churn", "churn", "adv", "adv", "adv"}).Draw(rt, "k")
 		o := c09sOp{K: k}
@@ -415,6 +434,181 @@ func c09sGen(rt *rapid.T) c09sCase {
 }
 
 func TestVerif_C09_shedder(t *testing.T) {
-	kit.Run(t, "C09", "shedder-rules", kit.Opts{Quick: 6000, Thorough: 480000}, c09sGen,
+	kit.Run(t, "C09", "shedder-rules", kit.Opts{Quick: 20000, Thorough: 640000}, c09sGen,
 		func(c c09sCase) kit.Verdict { return c09sInterp(t, c) })
+}
+
+// Rule D (and A) under real concurrency: G goroutines loop Allow -> hold for a
+// (virtual) latency -> Pass/Fail. At every quiescent instant of the bubble
+// (every goroutine asleep) the in-package in-flight counter must equal the
+// number of goroutines holding an unreported promise; it is 0 at the end; with
+// a CPU reading that never reaches the threshold nothing is rejected.
+type c09pCase struct {
+	Bk    int     `json:"bk"`
+	BdMs  int64   `json:"bd"`
+	G     int     `json:"g"`
+	R     int     `json:"r"`
+	Mode  int     `json:"mode"` // 0 CPU never overloaded, 1 always, 2 toggling every ms
+	LatMs []int64 `json:"lat"`  // per goroutine hold time, ms (0 allowed)
+	FailK int     `json:"failk"`
+}
+
+func c09pInterp(t *testing.T, c c09pCase) (v kit.Verdict) {
+	if c.Bk < 1 || c.BdMs < 1 || 1000%c.BdMs != 0 || c.G < 1 || c.G > 64 || c.R < 1 || c.R > 1000 || len(c.LatMs) != c.G || c.FailK < 1 {
+		v.Excluded = true
+		return v
+	}
+	for _, l := range c.LatMs {
+		if l < 0 || l > 10000 {
+			v.Excluded = true
+			return v
+		}
+	}
+	var fail string
+	var rejected, admitted int64
+	saved := systemOverloadChecker
+	defer func() { systemOverloadChecker = saved }()
+	enabled.Set(true)
+	res := kit.Bubble(t, func() {
+		var reading int64
+		if c.Mode == 1 {
+			reading = 1000
+		}
+		systemOverloadChecker = func(thr int64) bool { return atomic.LoadInt64(&reading) >= thr }
+		bd := c.BdMs * int64(time.Millisecond)
+		shd := NewAdaptiveShedder(WithWindow(time.Duration(bd*int64(c.Bk))), WithBuckets(c.Bk), WithCpuThreshold(500))
+		sh, ok := shd.(*adaptiveShedder)
+		if !ok {
+			fail = fmt.Sprintf("NewAdaptiveShedder returned %T", shd)
+			return
+		}
+		var holding, running int64
+		done := make(chan struct{})
+		running = int64(c.G)
+		for g := 0; g < c.G; g++ {
+			g := g
+			go func() {
+				defer func() {
+					if atomic.AddInt64(&running, -1) == 0 {
+						close(done)
+					}
+				}()
+				for r := 0; r < c.R; r++ {
+					p, err := shd.Allow()
+					if err != nil {
+						atomic.AddInt64(&rejected, 1)
+						time.Sleep(time.Millisecond)
+						continue
+					}
+					atomic.AddInt64(&admitted, 1)
+					atomic.AddInt64(&holding, 1)
+					time.Sleep(time.Duration(c.LatMs[g]) * time.Millisecond)
+					if (r+g)%c.FailK == 0 {
+						p.Fail()
+					} else {
+						p.Pass()
+					}
+					atomic.AddInt64(&holding, -1)
+					time.Sleep(time.Millisecond)
+				}
+			}()
+		}
+		for i := 0; ; i++ {
+			kit.Wait() // every worker is asleep (or gone)
+			f, h := atomic.LoadInt64(&sh.flying), atomic.LoadInt64(&holding)
+			if f != h {
+				fail = fmt.Sprintf("rule D: at quiescent instant %d the in-flight counter is %d, goroutines holding an unreported promise %d", i, f, h)
+			}
+			if f < 0 {
+				fail = fmt.Sprintf("rule D: in-flight counter negative: %d", f)
+			}
+			select {
+			case <-done:
+				if f := atomic.LoadInt64(&sh.flying); f != 0 {
+					fail = fmt.Sprintf("rule D: in-flight counter is %d after every admitted request has reported", f)
+				}
+				return
+			default:
+			}
+			if fail != "" {
+				<-done
+				return
+			}
+			if c.Mode == 2 {
+				atomic.StoreInt64(&reading, int64(1000*(i%2)))
+			}
+			time.Sleep(500 * time.Microsecond)
+		}
+	})
+	if fail == "" && c.Mode == 0 && rejected != 0 {
+		fail = fmt.Sprintf("rule A: %d requests rejected although the CPU reading never reached the threshold", rejected)
+	}
+	v.NonTrivial = rejected > 0 && admitted > 0
+	v.Classes = append(v.Classes, fmt.Sprintf("mode-%d", c.Mode))
+	if rejected > 0 {
+		v.Classes = append(v.Classes, "some-rejected")
+	}
+	if fail != "" {
+		v.Fail = fail
+	} else if !res.OK() {
+		v.Fail = "bubble: " + res.String()
+	}
+	return v
+}
+
+func TestVerif_C09_shedder_concurrent(t *testing.T) {
+	kit.Run(t, "C09", "shedder-concurrent", kit.Opts{Quick: 400, Thorough: 6400},
+		func(rt *rapid.T) c09pCase {
+			c := c09pCase{
+				Bk:    rapid.SampledFrom([]int{1, 5, 10, 50}).Draw(rt, "bk"),
+				BdMs:  rapid.SampledFrom([]int64{10, 50, 100}).Draw(rt, "bd"),
+				G:     rapid.IntRange(2, 24).Draw(rt, "g"),
+				R:     rapid.IntRange(1, 40).Draw(rt, "r"),
+				Mode:  rapid.IntRange(0, 2).Draw(rt, "mode"),
+				FailK: rapid.IntRange(1, 5).Draw(rt, "failk"),
+			}
+			for g := 0; g < c.G; g++ {
+				c.LatMs = append(c.LatMs, rapid.Int64Range(0, 20).Draw(rt, "lat"))
+			}
+			return c
+		},
+		func(c c09pCase) kit.Verdict { return c09pInterp(t, c) })
+}
+
+// The no-op shedder (returned after Disable()) is covered by rule A trivially:
+// it never rejects, whatever the CPU reading, and its promises accept reports.
+type c09nCase struct {
+	N    int   `json:"n"`
+	Cpu  int64 `json:"cpu"`
+	Pass bool  `json:"pass"`
+}
+
+func TestVerif_C09_nop_shedder(t *testing.T) {
+	kit.Run(t, "C09", "nop-shedder", kit.Opts{Quick: 100, Thorough: 1600},
+		func(rt *rapid.T) c09nCase {
+			return c09nCase{N: rapid.IntRange(1, 50).Draw(rt, "n"), Cpu: rapid.SampledFrom([]int64{0, 899, 900, 1000}).Draw(rt, "cpu"), Pass: rapid.Bool().Draw(rt, "pass")}
+		},
+		func(c c09nCase) (v kit.Verdict) {
+			saved := systemOverloadChecker
+			defer func() { systemOverloadChecker = saved; enabled.Set(true) }()
+			systemOverloadChecker = func(thr int64) bool { return c.Cpu >= thr }
+			Disable()
+			shd := NewAdaptiveShedder()
+			if _, isAdaptive := shd.(*adaptiveShedder); isAdaptive {
+				return v.Failf("after Disable() NewAdaptiveShedder still returns the adaptive shedder")
+			}
+			v.NonTrivial = c.Cpu >= 900
+			for i := 0; i < c.N; i++ {
+				p, err := shd.Allow()
+				if err != nil || p == nil {
+					return v.Failf("rule A: disabled shedder rejected arrival %d (cpu %d): %v", i, c.Cpu, err)
+				}
+				if c.Pass {
+					p.Pass()
+				} else {
+					p.Fail()
+				}
+			}
+			return v
+		})
 }
